@@ -26,6 +26,9 @@ func runC02(c *Ctx) {
 	cdxTreeAssembly(c, "C02")
 	placedAttached(c)
 	lifecyclePhaseRule(c)
+	// "a second pass changes nothing further", document after document: the registered driver
+	// objects are shared by every writer and reader
+	driverStateRule(c, "driver-keeps-no-state", []string{cdxSer, "serializers.(*CDX).Render", cdxUnser}, newOrigins(c.P))
 	var conv []*declInfo
 	for _, n := range []string{"serializers.(*CDX).nodeToComponent", "unserializers.(*CDX).componentToNode"} {
 		if d := c.decl("verbatim-copy-guards", n); d != nil {
